@@ -432,3 +432,39 @@ pub mod events {
             .collect()
     }
 }
+
+// ------------------------------------------------------------------------
+// Heap layout components with private instances (H5)
+// ------------------------------------------------------------------------
+
+pub mod heap {
+    pub use crate::util::heap::blockpageresource::BlockPageResource;
+    pub use crate::util::heap::freelistpageresource::FreeListPageResource;
+    pub use crate::util::heap::layout::verif_exports::*;
+    pub use crate::util::heap::layout::{Mmapper, VMMap};
+    pub use crate::util::heap::monotonepageresource::MonotonePageResource;
+    pub use crate::util::heap::pageresource::{PRAllocFail, PRAllocResult, PageResource};
+    pub use crate::util::os::{HugePageSupport, MmapAnnotation, MmapProtection};
+
+    /// Initialise the global SFT map (normally done by `MMTK::new`); `Map32` clears SFT entries when
+    /// it frees chunks.
+    pub fn init_sft_map() {
+        static ONCE: std::sync::Once = std::sync::Once::new();
+        ONCE.call_once(|| {
+            crate::mmtk::SFT_MAP.initialize_once(&crate::policy::sft_map::create_sft_map);
+        });
+    }
+
+    /// A block type for `BlockPageResource` (the Immix block: 32 KiB).
+    pub type ImmixBlock = crate::policy::immix::block::Block;
+
+    /// First address of a block / a block from its first address.
+    pub fn block_start(b: ImmixBlock) -> crate::util::Address {
+        use crate::util::linear_scan::Region;
+        b.start()
+    }
+    pub fn block_from(a: crate::util::Address) -> ImmixBlock {
+        use crate::util::linear_scan::Region;
+        ImmixBlock::from_aligned_address(a)
+    }
+}
